@@ -81,6 +81,9 @@ theorem wtrans_wstep {b b' : BState} (h : WTrans b b') : WStep b b' := by
   case drain cmd hh q hw hq => exact .takeDrain _ _ _ hq rfl hw rfl rfl
   case storePutPanic c t hw _ _ => exact .die (by rw [hw]; rfl) rfl rfl rfl
   case updatePanic id w hh hw _ => exact .die (by rw [hw]; rfl) rfl rfl rfl
+  case space0Overflow c hw _ _ => exact .die (by rw [hw]; rfl) rfl rfl rfl
+  case evSpaceOverflow c e s hw _ _ => exact .die (by rw [hw]; rfl) rfl rfl rfl
+  case emptyOverflow c hw _ _ => exact .die (by rw [hw]; rfl) rfl rfl rfl
   all_goals first
     | exact .cont (by rw [‹b.w = _›]; rfl) rfl (by rw [‹b.w = _›]; rfl) (by simp) (by simp)
     | (refine .complete _ (by rw [‹b.w = _›]; rfl) rfl rfl ?_ (by rw [‹b.w = _›]; rfl); simp)
